@@ -2090,7 +2090,7 @@ impl<'de, 'e> de::Deserializer<'de> for YamlDeserializer<'de, 'e> {
             && (tag == &SfTag::Null || scalar_is_nullish(s, style))
         {
             let _ = self.ev.next()?; // consume the null-like scalar
-            struct EmptyMap;
+            struct EmptyMap(Location);
             impl<'de> de::MapAccess<'de> for EmptyMap {
                 type Error = Error;
                 fn next_key_seed<K>(&mut self, _seed: K) -> Result<Option<K::Value>, Error>
@@ -2103,10 +2103,11 @@ impl<'de, 'e> de::Deserializer<'de> for YamlDeserializer<'de, 'e> {
                 where
                     Vv: de::DeserializeSeed<'de>,
                 {
-                    unreachable!("no values in empty map")
+                    // (as the streaming access answers for `{}`)
+                    Err(Error::ValueRequestedBeforeKey { location: self.0 })
                 }
             }
-            return visitor.visit_map(EmptyMap);
+            return visitor.visit_map(EmptyMap(self.ev.last_location()));
         }
         self.expect_map_start()?;
 
